@@ -227,6 +227,8 @@ func runC11(o *opts) error {
 				emitE(f[1], f[2], unhx(f[3]))
 			case "Q":
 				qgen.emitFields(f[1:])
+			case "M":
+				(&c11mGen{g: qgen}).emitFields(f[1:])
 			}
 		}
 		return nil
@@ -292,6 +294,8 @@ func runC11(o *opts) error {
 	}
 	// stream Q: keyword-spelling and boundary values against stored values, through the store path
 	qgen.all(o, r)
+	// stream M: filters with several comparisons in which literals repeat; sequences of filters
+	qgen.allM(o, r)
 	writeJSON(o.out, "stats.json", stats)
 	return nil
 }
